@@ -242,15 +242,27 @@ func (d *decodingReader) decode(f frame.Frame) error {
 		}
 	}
 	sum := d.crc.Sum32()
+	sumStart := d.crc.n
 	var decoded uint32
 	if err := d.dec.Decode(&decoded); err != nil {
 		return err
+	}
+	// The checksum record itself is not covered by the checksum. Gob
+	// silently skips any trailing bytes of a message, so a damaged
+	// message length here would swallow the data that follow.
+	if d.crc.n-sumStart > maxChecksumRecordSize {
+		return errors.E(errors.Integrity, fmt.Errorf("checksum record has invalid size %d", d.crc.n-sumStart))
 	}
 	if sum != decoded {
 		return errors.E(errors.Integrity, fmt.Errorf("computed checksum %x but expected checksum %x", sum, decoded))
 	}
 	return nil
 }
+
+// maxChecksumRecordSize is the maximum size of the gob message that
+// holds a batch's checksum: message length, type id and delta (one
+// byte each), and up to five bytes of uint32 value.
+const maxChecksumRecordSize = 8
 
 // countingHash is a Hash32 that counts the bytes written to it since
 // the last Reset. The decoder uses it to tell whether an EOF occurred
